@@ -175,6 +175,10 @@ Fixpoint life_prop (closers : list bool) (steps : list (lop * bool * list N)) : 
       exact_counts closers' cs att && life_prop closers' r
   end.
 
+(* a fixed-size body copied through Read (plain reader, opted-out BodyWriterTo, ...): the body bytes handed to the
+   connection (accepted by the target or still in the bufio.Writer) never exceed the declared size *)
+Definition body_within (o : wobs) (before size : Z) : bool := blen (wo_out o) + wo_buffered o - before <=? size.
+
 Definition prop_ok (c : c34case) : bool :=
   match c with
   | CWChunk _ _ _ _ _ => true
@@ -186,10 +190,12 @@ Definition prop_ok (c : c34case) : bool :=
         | None => false
         end
       else true
-  | CWFixed k size budget sz pre data script o => true     (* bytes may still sit in the buffer: judged in CMsg *)
+  | CWFixed k size budget sz pre data script o =>
+      match k with KReader => body_within o (blen pre) sz | KBytesReader => true end
   | CMsg mk k size budget cl sendBody flush closer hdr trailer data script o attached closes wire produced final_closes =>
       (final_closes =? (if closer then 1 else 0))%N
       && (closes <=? final_closes)%N
+      && (match k with KReader => if cl >=? 0 then body_within o (blen hdr) cl else true | KBytesReader => true end)
       && (if res_ok (wo_res o) && (budget <? 0) && sendBody then
             let body := skipn (length hdr) wire in
             if cl >=? 0 then received_fixed_ok body produced
@@ -197,6 +203,9 @@ Definition prop_ok (c : c34case) : bool :=
           else true)
   | CMsgWT mk support size budget cl sendBody flush hdr trailer segs o attached closes wire next dec final_closes =>
       (final_closes =? 1)%N && (closes <=? final_closes)%N
+      (* opted OUT of WriteTo: copied through Read, so never more than the declared size (opted-in streams copy
+         themselves and are C03's subject) *)
+      && (if negb support && (cl >=? 0) then body_within o (blen hdr) cl else true)
       && (if res_ok (wo_res o) && (budget <? 0) && (sendBody || match mk with MReq => true | MResp => false end) then
             let body := skipn (length hdr) wire in
             if cl >=? 0 then received_fixed_ok body (concat segs)
